@@ -16,6 +16,7 @@ package c12
 
 import (
 	"fmt"
+	"github.com/youchainhq/go-youchain/common"
 	"runtime"
 	"sort"
 	"strings"
@@ -64,6 +65,9 @@ type ChainOp struct {
 	From   int    `json:"from,omitempty"`
 	To     int    `json:"to,omitempty"`
 	N      int    `json:"n,omitempty"`
+	// graft: the graft is offered behind its last Prefix ancestors (one InsertChain batch: blocks the
+	// node may already know, then the graft)
+	Prefix int `json:"prefix,omitempty"`
 }
 
 // GraftSpec is an adversarial block: a child of block Pos (1-based, modulo) of branch
@@ -173,7 +177,8 @@ func genChainCase(t *rapid.T) ChainCase {
 			from := rapid.IntRange(1, lens[b]).Draw(t, "from")
 			c.Ops = append(c.Ops, ChainOp{Kind: "insert", Branch: b, From: from, To: rapid.IntRange(from, lens[b]).Draw(t, "to")})
 		case k == 8 && ngraft > 0:
-			c.Ops = append(c.Ops, ChainOp{Kind: "graft", N: rapid.IntRange(0, ngraft-1).Draw(t, "graft")})
+			c.Ops = append(c.Ops, ChainOp{Kind: "graft", N: rapid.IntRange(0, ngraft-1).Draw(t, "graft"),
+				Prefix: rapid.SampledFrom([]int{0, 0, 1, 2, 3, 6}).Draw(t, "gprefix")})
 		default:
 			c.Ops = append(c.Ops, ChainOp{Kind: "sethead", N: rapid.IntRange(0, 20).Draw(t, "sethead")})
 		}
@@ -530,9 +535,31 @@ func runChainCase(c ChainCase) (res kit.Result) {
 				continue
 			}
 			canonParent := bc.GetHeaderByNumber(g.NumberU64() - 1)
-			err := bc.InsertChain(types.Blocks{g})
-			what = fmt.Sprintf("op %d: InsertChain(graft %d = #%d, child of %x, version fields %v copied from the other branch; rejected by the verifier after its own parent: %v; canonical #%d at that moment was its parent: %v) err=%v",
-				oi, gi, g.NumberU64(), g.ParentHash().Bytes()[:4], hdrOf(g.Header()), tr.graftBad[gi], g.NumberU64()-1, canonParent != nil && canonParent.Hash() == g.ParentHash(), err)
+			batch := types.Blocks{g}
+			if op.Prefix > 0 {
+				byHash := map[common.Hash]*types.Block{}
+				for _, bs := range tr.branches {
+					for _, b := range bs {
+						byHash[b.Hash()] = b
+					}
+				}
+				for k := 0; k < op.Prefix; k++ {
+					p, ok := byHash[batch[0].ParentHash()]
+					if !ok {
+						break
+					}
+					batch = append(types.Blocks{p}, batch...)
+				}
+				if len(batch) > 1 {
+					labels["graft-behind-prefix"] = true
+					if bc.HasBlock(batch[len(batch)-2].Hash(), batch[len(batch)-2].NumberU64()) {
+						labels["graft-behind-known-prefix"] = true
+					}
+				}
+			}
+			err := bc.InsertChain(batch)
+			what = fmt.Sprintf("op %d: InsertChain(%d of its ancestors, then graft %d = #%d, child of %x, version fields %v copied from the other branch; rejected by the verifier after its own parent: %v; canonical #%d at that moment was its parent: %v) err=%v",
+				oi, len(batch)-1, gi, g.NumberU64(), g.ParentHash().Bytes()[:4], hdrOf(g.Header()), tr.graftBad[gi], g.NumberU64()-1, canonParent != nil && canonParent.Hash() == g.ParentHash(), err)
 			if tr.graftBad[gi] {
 				labels["invalid-graft-offered"] = true
 				if err == nil && bc.CurrentBlock().Hash() == g.Hash() {
